@@ -55,6 +55,22 @@ def term(ctx: Ctx, fi: FuncInfo, src: str) -> str:
     return alts[0]
 
 
+
+def call_arg(call: ast.Call, callee: FuncInfo, i: int):
+    """The expression passed for positional parameter i of callee (0 = self for methods) at this call - given by position
+    or by keyword; None when it is not given (or given through */**)."""
+    off = 1 if callee.cls is not None and not getattr(callee, "is_static", False) else 0
+    if any(isinstance(a, ast.Starred) for a in call.args):
+        return None
+    k = i - off
+    if 0 <= k < len(call.args):
+        return call.args[k]
+    if i < len(callee.params):
+        for kw in call.keywords:
+            if kw.arg == callee.params[i]:
+                return kw.value
+    return None
+
 def P(fi: FuncInfo, i: int) -> str:
     """Canonical text of positional parameter i of fi (0 = self for methods)."""
     need(i < len(fi.params), "%s has no positional parameter %d" % (fi.qname, i))
@@ -225,11 +241,17 @@ def param_mutations(ctx: Ctx, fi: FuncInfo, pname: str, depth: int = 2, seen=Non
     out = []
     elem_vars = {lp.target.id for lp in ctx.types.nodes_in(fi, (ast.For, ast.comprehension)) if isinstance(lp.target, ast.Name)
                  and isinstance(lp.iter, ast.Name) and lp.iter.id == pname}
+    # other names of the same object: `config = args` (the only binding of that name)
+    names = {pname}
+    for n in ctx.types.nodes_in(fi, ast.Assign):
+        if isinstance(n.value, ast.Name) and n.value.id == pname and len(n.targets) == 1 and isinstance(n.targets[0], ast.Name) \
+                and len(ctx.types.local_bindings(fi, n.targets[0].id)) == 1:
+            names.add(n.targets[0].id)
     for n in ctx.types.nodes_in(fi):
         if isinstance(n, ast.Call) and isinstance(n.func, ast.Attribute) and isinstance(n.func.value, ast.Name) \
-                and n.func.value.id == pname and n.func.attr in _MUTATORS:
+                and n.func.value.id in names and n.func.attr in _MUTATORS:
             out.append((fi, n))
-        elif isinstance(n, ast.Subscript) and isinstance(n.ctx, (ast.Store, ast.Del)) and isinstance(n.value, ast.Name) and n.value.id == pname:
+        elif isinstance(n, ast.Subscript) and isinstance(n.ctx, (ast.Store, ast.Del)) and isinstance(n.value, ast.Name) and n.value.id in names:
             out.append((fi, n))
         elif isinstance(n, ast.Attribute) and isinstance(n.ctx, (ast.Store, ast.Del)) and isinstance(n.value, ast.Name) and \
                 (n.value.id == pname and pname not in ("self", "cls") or n.value.id in elem_vars):
@@ -241,7 +263,7 @@ def param_mutations(ctx: Ctx, fi: FuncInfo, pname: str, depth: int = 2, seen=Non
                 continue
             for g in tg.repo:
                 for gp, arg in ctx.types.bind_args(g, n).items():
-                    if isinstance(arg, ast.Name) and arg.id == pname:
+                    if isinstance(arg, ast.Name) and arg.id in names:
                         out += param_mutations(ctx, g, gp, depth - 1, seen)
     # an unconditional rebinding of the name (args = dict(args)) makes later operations act on a private copy; a
     # conditional one (if args is None: args = {}) leaves the caller's object in place on the other path
@@ -260,6 +282,35 @@ def param_mutations(ctx: Ctx, fi: FuncInfo, pname: str, depth: int = 2, seen=Non
         out = [(f_, n_) for f_, n_ in out if f_ is fi and n_.lineno < first_copy]
     return out
 
+
+
+def lost_updates(ctx: Ctx, funcs):
+    """[(function, call, property)] in-place changes made to a value that a property just built for the caller (`return
+    list(self._x)`, `[.. for ..]`, `self._x.copy()`): the change lands on the throw-away copy, the object keeps what it had."""
+    t = ctx.types
+    out = []
+
+    def fresh(e):
+        if isinstance(e, (ast.List, ast.Dict, ast.Set, ast.ListComp, ast.DictComp, ast.SetComp, ast.Tuple)):
+            return True
+        if isinstance(e, ast.Call):
+            f = norm(e.func)
+            if f in ("list", "dict", "set", "tuple", "sorted", "frozenset", "copy.copy", "copy.deepcopy"):
+                return True
+            if isinstance(e.func, ast.Attribute) and e.func.attr == "copy" and not e.args:
+                return True
+        if isinstance(e, ast.BinOp) and isinstance(e.op, ast.Add):
+            return fresh(e.left) or fresh(e.right)
+        return False
+    for fi in funcs:
+        for c in t.calls_in(fi):
+            if not (isinstance(c.func, ast.Attribute) and c.func.attr in _MUTATORS and isinstance(c.func.value, ast.Attribute)):
+                continue
+            for g in t.property_targets(c.func.value, fi):
+                rets = [r for r in t.nodes_in(g, ast.Return) if r.value is not None]
+                if rets and all(fresh(r.value) for r in rets):
+                    out.append((fi, c, g))
+    return out
 
 def borrow(ctx: Ctx, res: Result, tier: str, module_name: str, rules, as_rule: str, text: str):
     """Run the check of another property and take over the obligations / findings of some of its rules under `as_rule`
